@@ -107,6 +107,13 @@ fn forged_variants(e: &Elem, other: &SigningKey, alt_backlink: Hash) -> Vec<Elem
         let op = Operation { hash: h.hash(), header: h, body: e.op.body.clone() };
         v.push(mk("flag-edited", op, "stale-signature"));
     }
+    // a corrupted copy: header, signature and body intact, but the `hash` field of the operation
+    // (its id) is not the hash of its header.  The property makes no accept/reject demand for it,
+    // but it must never break the log invariants (e.g. be stored next to the genuine operation).
+    {
+        let op = Operation { hash: Hash::digest(format!("wrong-id-{}", e.name)), header: e.op.header.clone(), body: e.op.body.clone() };
+        v.push(mk("id-field-edited", op, "wrong-id"));
+    }
     // body replaced
     if e.op.body.is_some() {
         let op = Operation { hash: e.op.hash, header: e.op.header.clone(), body: Some(p2panda_core::Body::new(b"tampered")) };
@@ -142,7 +149,7 @@ pub fn build(spec: &Spec) -> Universe {
 }
 
 /// Observable store content: (author hex, log) -> seq -> (hash, backlink, flag, body present).
-type Content = BTreeMap<(String, L), BTreeMap<SeqNum, Vec<(String, Option<String>, bool, bool)>>>;
+type Content = BTreeMap<(String, L), BTreeMap<SeqNum, Vec<(String, Option<String>, bool, bool, String)>>>;
 
 /// Read the whole store back through the public log API (all universe logs, no range).
 async fn read_back<S>(store: &S, logs: &[(VerifyingKey, L)]) -> Result<Content, String>
@@ -162,6 +169,7 @@ where
                 op.header.backlink.map(|b| b.to_hex()),
                 op.header.extensions.prune,
                 op.body.is_some(),
+                op.header.hash().to_hex(),
             ));
         }
     }
@@ -223,7 +231,7 @@ fn content_to_indices(u: &Universe, c: &Content) -> Result<BTreeSet<usize>, Stri
     let mut s = BTreeSet::new();
     for ((_a, l), m) in c {
         for rows in m.values() {
-            for (hash, _, _, has_body) in rows {
+            for (hash, _, _, has_body, _) in rows {
                 // identify by hash + log; tampered-body elements share the hash of their original
                 let idx = u
                     .elems
@@ -248,7 +256,7 @@ fn chain_invariant(c: &Content) -> Result<(), (String, String)> {
             if rows.len() > 1 {
                 return Err(("duplicate-seq".into(), format!("log ({}…,{l}) stores {} entries with seq {seq}", &a[..8], rows.len())));
             }
-            let (hash, backlink, flag, _) = &rows[0];
+            let (hash, backlink, flag, _, _) = &rows[0];
             if *seq > 0 && !*flag {
                 let pred = seq.checked_sub(1).and_then(|p| m.get(&p));
                 match pred {
@@ -259,7 +267,7 @@ fn chain_invariant(c: &Content) -> Result<(), (String, String)> {
                         ));
                     }
                     Some(p) => {
-                        if backlink.as_deref() != Some(p[0].0.as_str()) {
+                        if backlink.as_deref() != Some(p[0].4.as_str()) {
                             return Err((
                                 "backlink-does-not-match-predecessor".into(),
                                 format!("log ({}…,{l}): entry seq {seq} backlinks to {:?} but the stored predecessor is {}", &a[..8], backlink.as_ref().map(|b| &b[..8]), &p[0].0[..8]),
@@ -365,7 +373,7 @@ async fn expand(
                 ));
             }
             // forged copies are never accepted
-            if !e.honest && ok {
+            if !e.honest && ok && e.kind != "wrong-id" {
                 out.violations.push((
                     format!("forged-accepted/{}", e.kind),
                     format!("path {:?}: forged operation {} ({}) was accepted: {res}", replay["path"], e.name, e.kind),
@@ -378,7 +386,7 @@ async fn expand(
                 let extends = match latest {
                     None => e.op.header.seq_num == 0,
                     Some((seq, rows)) => {
-                        e.op.header.seq_num == seq + 1 && e.op.header.backlink.map(|b| b.to_hex()) == Some(rows[0].0.clone())
+                        e.op.header.seq_num == seq + 1 && e.op.header.backlink.map(|b| b.to_hex()) == Some(rows[0].4.clone())
                     }
                 };
                 if !extends {
